@@ -32,7 +32,7 @@ def P(pid, rules, technique, decides, not_decided, assumptions=(),
     }
 
 
-P("C01", ["R08", "R09", "R10", "R11", "R12", "R13c", "R17", "R07", "R34", "R39", "R41", "R04", "R47", "R50", "R36"],
+P("C01", ["R08", "R09", "R10", "R11", "R12", "R13c", "R17", "R07", "R34", "R39", "R41", "R04", "R47", "R50", "R36", "R56"],
   "typestate abstract interpretation (dirty/clean fields), carry-loop "
   "symbolic agreement, unit-of-measure inference",
   "R08 in TimePoint.__add__ every incremented time/day field is followed by "
@@ -76,7 +76,7 @@ P("C02", ["R14", "R15", "R16", "R12", "R08", "R09", "R10", "R43", "R47", "R04", 
   "conversions C01/C03 are right), float ties in the second-of-day.",
   [], [])
 
-P("C03", ["R13ab", "R11", "R04", "R07", "R12", "R39", "R49", "R36"],
+P("C03", ["R13ab", "R11", "R04", "R07", "R12", "R39", "R49", "R36", "R57", "R64"],
   "structural slot-group and dispatch-matrix checks, leap-table polarity, "
   "cache-key discipline",
   "(thin) R13a each to_*_date fills exactly its own slot group from the "
@@ -143,7 +143,7 @@ P("C06", ["R14", "R13c", "R08", "R09", "R10", "R11", "R12", "R15", "R22",
   "of C01 and the comparison of C02).",
   [], [])
 
-P("C07", ["R23", "R24", "R25", "R26", "R12", "R36", "R37", "R38", "R48", "R35", "R52"],
+P("C07", ["R23", "R24", "R25", "R26", "R12", "R36", "R37", "R38", "R48", "R35", "R52", "R58", "R59"],
   "constant folding / partial evaluation of the parser tables, regex-AST "
   "shape intersection",
   "R23 every translate row agrees with itself (one named group, capture "
@@ -184,7 +184,7 @@ P("C08", ["R24", "R23", "R14", "R26", "R35", "R37", "R38", "R48", "R36", "R09", 
   "equality after the 6-digit float truncation; custom formats in general.",
   [], [])
 
-P("C09", ["R20", "R21", "R22", "R10", "R11", "R23", "R31", "R33", "R12", "R36", "R04", "R50", "R07", "R53"],
+P("C09", ["R20", "R21", "R22", "R10", "R11", "R23", "R31", "R33", "R12", "R36", "R04", "R50", "R07", "R53", "R59"],
   "call-graph reachability of raise sites, must-pass-through analysis, "
   "bound-kind checks, regex star height",
   "R21 with both bypass flags off every exit of TimePoint.__init__ has "
@@ -209,7 +209,7 @@ P("C09", ["R20", "R21", "R22", "R10", "R11", "R23", "R31", "R33", "R12", "R36", 
    "by name: reachable only through error-message formatting of an already "
    "constructed point"], [])
 
-P("C10", ["R27", "R26", "R12", "R40"],
+P("C10", ["R27", "R26", "R12", "R40", "R60"],
   "folded writer list vs regex-AST reader sequence",
   "(thin) R27 the designator sequence Duration.__str__ emits (Y M D T H M "
   "S; W alone) equals, unit for unit and in order, the (group, literal) "
@@ -252,7 +252,7 @@ P("C12", ["R18", "R19", "R04", "R07"],
   "counts and values for concrete series.",
   ["two known findings (K1, K2) are reported as KNOWN-FINDING lines"], [])
 
-P("C13", ["R19", "R43"],
+P("C13", ["R19", "R43", "R61"],
   "abstract interpretation of guard status of returned points",
   "R19 every time point computed by arithmetic and returned by get_next, "
   "get_prev or get_first_after has passed self._get_is_in_bounds on that "
@@ -283,7 +283,7 @@ P("C14", ["R18", "R16", "R28", "R17"],
   "r - d negates the week form too).",
   "(r + d) - d == r and identical iteration over values.", [], [])
 
-P("C15", ["R04", "R05", "R06", "R07", "R30", "R03", "R12", "R39"],
+P("C15", ["R04", "R05", "R06", "R07", "R30", "R03", "R12", "R39", "R62", "R36", "R11"],
   "call-graph closure of mode reads, must-assign analysis, partial "
   "evaluation of set_mode over the finite mode table",
   "(structural, in full up to the assumptions) R04 every memoised function "
@@ -355,7 +355,7 @@ P("C18", ["R26", "R12", "R14", "R07", "R41", "R42", "R44"],
   "results for actual system zone configurations (read from time.* at run "
   "time).", [], [])
 
-P("C19", ["R30", "R20", "R32", "R12", "R51", "R55"],
+P("C19", ["R30", "R20", "R32", "R12", "R51", "R55", "R63"],
   "structural try/handler and option-plumbing checks, call-graph "
   "reachability",
   "R30 all four dispatch calls (for the recurrence generator: its loop) "
@@ -413,7 +413,7 @@ NOT_APPLICABLE = {}
 # line, because line numbers moved with the fix commits).
 CORE_RULES = ("R04", "R05", "R06", "R07", "R08", "R09", "R10", "R11", "R12",
               "R13ab", "R13c", "R14", "R15", "R16", "R17", "R22", "R34",
-              "R36", "R39", "R41", "R43", "R47", "R49", "R50")
+              "R36", "R39", "R41", "R43", "R47", "R49", "R50", "R56", "R57", "R62", "R64")
 
 ENTRY_POINTS = {
     "C01": ["data.TimePoint.__add__", "data.TimePoint.__radd__"],
@@ -427,10 +427,18 @@ ENTRY_POINTS = {
     "C06": ["data.TimePoint.to_time_zone", "data.TimePoint.to_utc",
             "data.TimePoint.to_local_time_zone",
             "dumpers.TimePointDumper._dump_expression_with_properties"],
+    "C07": ["parsers.TimePointParser.parse"],
     "C08": ["data.TimePoint.__str__", "dumpers.TimePointDumper.dump",
             "parsers.TimePointParser.parse"],
     "C09": ["data.TimePoint.__init__", "data.TimePoint._check_bounds",
             "parsers.TimePointParser.parse"],
+    "C10": ["data.Duration.__str__", "parsers.DurationParser.parse"],
+    "C11": ["data.Duration.__add__", "data.Duration.__sub__",
+            "data.Duration.__mul__", "data.Duration.__floordiv__",
+            "data.Duration.__abs__", "data.Duration.__eq__",
+            "data.Duration.__hash__", "data.Duration.__lt__",
+            "data.Duration.__le__", "data.Duration.__gt__",
+            "data.Duration.__ge__"],
     "C12": ["data.TimeRecurrence.__init__", "data.TimeRecurrence.__iter__"],
     "C13": ["data.TimeRecurrence.get_is_valid",
             "data.TimeRecurrence.get_first_after",
@@ -440,6 +448,18 @@ ENTRY_POINTS = {
             "data.TimeRecurrence.__eq__", "data.TimeRecurrence.__hash__",
             "data.TimeRecurrence.__str__",
             "parsers.TimeRecurrenceParser.parse"],
+    "C15": ["data.Calendar.set_mode", "data.get_is_leap_year",
+            "data.get_days_in_year", "data.get_days_in_month",
+            "data.get_weeks_in_year", "data.get_days_in_year_range",
+            "data.get_days_since_1_ad", "data.iter_months_days",
+            "data.get_calendar_date_from_ordinal_date",
+            "data.get_calendar_date_from_week_date",
+            "data.get_ordinal_date_from_calendar_date",
+            "data.get_ordinal_date_from_week_date",
+            "data.get_week_date_from_calendar_date",
+            "data.get_week_date_from_ordinal_date",
+            "data.get_calendar_date_week_date_start",
+            "data.get_ordinal_date_week_date_start"],
     "C17": ["dumpers.TimePointDumper.strftime",
             "parsers.TimePointParser.strptime"],
     "C18": ["data.TimePoint.seconds_since_unix_epoch",
